@@ -58,6 +58,12 @@ def run(ctx):
     m = Machine(prog, K)
     from .common import failure_text_is_text
     failure_text_is_text(ctx, 'C07.D5', 'the client never closes the connection although every mechanism was refused')
+    frag = m.fragile_split()
+    ctx.ob('C07.D5', m.dispatch.qualname, 'line-split-cannot-fail',
+           not frag, 'the dispatcher unpacks a split of the line into a fixed '
+           'number of names without the matching maxsplit (%s): %s' % (
+               '; '.join('%s (line %d)' % (t, ln) for ln, t in frag),
+               'a server line with more words than the dispatcher unpacks makes the client raise instead of moving on to the next mechanism / sending BEGIN'))
     lossy = m.lossy_dispatch_key()
     ctx.ob('C07.D5', m.dispatch.qualname, 'command-word-taken-exactly',
            not lossy, 'the handler is chosen from the command word after it '
